@@ -292,6 +292,62 @@ def _mutarg_job(job):
                     break
         if len(viols) > 50:
             break
+    # the same VALUE object, its shape changed in place between two checks of one context (and
+    # short-lived temporaries whose addresses get reused): a verdict may depend on nothing but the
+    # shape the object has at the time of the check
+    import numpy as np
+
+    plain = ["a", "a b", "*v a", "#a 2"]
+    panns = {d: Float[Duck, d] for d in plain}
+    nanns = {d: Float[np.ndarray, d] for d in plain}
+    paxes = {d: rdims.parse(d)[1] for d in plain}
+    shp = [(2,), (3,), (2, 3), (3, 2), (1, 2)]
+    if job["k"] == 0:
+        for d in plain:
+            for s1 in shp:
+                for s2 in shp:
+                    for carrier in ("duck-inplace", "numpy-inplace", "temporaries"):
+                        def body():
+                            ctx = ({}, {})
+                            out = []
+                            if carrier == "duck-inplace":
+                                obj = Duck(s1)
+                                seq = [(obj, s1), (obj, s2)]
+                            elif carrier == "numpy-inplace":
+                                obj = np.zeros(s1, dtype="float32")
+                                seq = [(obj, s1), (obj, s2)]
+                            else:
+                                seq = [(None, s1), (None, s2), (None, s1), (None, s2)]
+                            for obj, sh in seq:
+                                if carrier == "duck-inplace":
+                                    obj.shape = tuple(sh)
+                                    got = adapter.check(obj, panns[d])
+                                elif carrier == "numpy-inplace":
+                                    if obj.size == int(np.prod(sh)):
+                                        obj.shape = tuple(sh)
+                                    else:
+                                        continue
+                                    got = adapter.check(obj, nanns[d])
+                                else:
+                                    got = adapter.check(Duck(sh), panns[d])  # a temporary, freed right away
+                                exp, new, allowed = rshapes.step(ctx, paxes[d], tuple(sh), None)
+                                out.append((got, allowed, tuple(sh)))
+                                if got is True and exp is True:
+                                    ctx = new
+                            return out
+
+                        res = adapter.in_context(body)
+                        n += len(res)
+                        for got, allowed, sh in res:
+                            if got not in allowed:
+                                viols.append(
+                                    Violation(
+                                        key=f"C01:same-object-new-shape:{carrier}:{d}",
+                                        what=f"[{carrier}] dims {d!r}: shapes {s1} then {s2} presented by the same object / by short-lived temporaries in one context: shape {sh} answered {got!r}, reference {sorted(map(str, allowed))}",
+                                        replay=dict(kind="mutarg", seq=[]),
+                                    ).to_json()
+                                )
+                                break
     return n, viols
 
 
